@@ -293,3 +293,45 @@ func zzC18_s4() {
 	}
 	vReach("C18_s4")
 }
+
+// zzS5: an anonymous (embedded) struct field that carries an avp tag is a grouped AVP of its own, not
+// a set of promoted fields.
+type zzS5 struct {
+	SessionID datatype.UTF8String `avp:"Session-Id"`
+	zzVSA     `avp:"Vendor-Specific-Application-Id"`
+}
+
+func zzC18_s5() {
+	src := zzS5{SessionID: datatype.UTF8String(zzSymStr("sid", 2)), zzVSA: zzVSA{VendorID: vU32("vendor"), AuthAppID: vU32("app")}}
+	m := NewRequest(CapabilitiesExchange, 0, dict.Default)
+	zzC18_prior(m)
+	err := m.Marshal(&src)
+	vAssert(err == nil, "Marshal succeeds on a supported struct")
+	if err != nil {
+		return
+	}
+	want := []*AVP{
+		zzHandAVP(m, "Session-Id", src.SessionID),
+		zzHandAVP(m, "Vendor-Specific-Application-Id", &GroupedAVP{AVP: []*AVP{
+			zzHandAVP(m, "Vendor-Id", datatype.Unsigned32(src.VendorID)),
+			zzHandAVP(m, "Auth-Application-Id", datatype.Unsigned32(src.AuthAppID)),
+		}}),
+	}
+	vAssert(len(m.AVP) == len(want), "a tagged embedded struct is marshalled as one grouped AVP")
+	if len(m.AVP) == len(want) {
+		for i := range want {
+			zzSameAVP(m.AVP[i], want[i], "marshalled AVP")
+		}
+	}
+	b, serr := m.Serialize()
+	vAssert(serr == nil && int(m.Header.MessageLength) == len(b), "message length bookkeeping after Marshal")
+	var d1 zzS5
+	vAssert(m.Unmarshal(&d1) == nil && d1 == src, "tagged embedded struct reproduced directly")
+	back, rerr := ReadMessage(zzNewReader(b), dict.Default)
+	vAssert(rerr == nil, "marshalled message survives the wire")
+	if rerr == nil {
+		var d2 zzS5
+		vAssert(back.Unmarshal(&d2) == nil && d2 == src, "tagged embedded struct reproduced after the wire round trip")
+	}
+	vReach("C18_s5")
+}
